@@ -37,6 +37,7 @@ import json
 import os
 import shutil
 import sys
+import threading
 
 MUTATING = ("mkdir", "creat", "write", "rename", "unlink", "rmdir")
 
@@ -48,9 +49,25 @@ STATE = {
 }
 
 
+TL = threading.local()   # per-thread: scheduler channel, log, bypass flag (threads of one process are participants)
+
+
+def _busy():
+    return getattr(TL, "busy", False)
+
+
+def current_log():
+    return getattr(TL, "log", None) if getattr(TL, "log", None) is not None else STATE["log"]
+
+
+def bind_thread(rfd, wfd):
+    """interleave mode, several participants in one process: this thread talks to the scheduler over its own pipes"""
+    TL.rfd, TL.wfd, TL.log, TL.busy = rfd, wfd, [], False
+
+
 def _under(path):
     loc = STATE["loc"]
-    if loc is None or STATE["busy"]:
+    if loc is None or _busy():
         return False
     if isinstance(path, bytes):
         try:
@@ -116,14 +133,14 @@ def _before(op, path, extra=None):
     if extra:
         ent.update(extra)
     if st["mode"] == "interleave":
-        st["busy"] = True
+        TL.busy = True
         try:
-            os.write(st["wfd"], (json.dumps({"ev": "op", "op": op, "p": ent["p"]}) + "\n").encode())
-            b = os.read(st["rfd"], 1)
+            os.write(getattr(TL, "wfd", st["wfd"]), (json.dumps({"ev": "op", "op": op, "p": ent["p"]}) + "\n").encode())
+            b = os.read(getattr(TL, "rfd", st["rfd"]), 1)
             if b != b"g":
                 os._exit(3)
         finally:
-            st["busy"] = False
+            TL.busy = False
     if op in MUTATING:
         k = st["nmut"]
         st["nmut"] = k + 1
@@ -132,13 +149,14 @@ def _before(op, path, extra=None):
                 ent["torn"] = True
                 return -2  # caller performs the torn write and dies
             os._exit(137)
-    st["log"].append(ent)
-    return len(st["log"]) - 1
+    log = current_log()
+    log.append(ent)
+    return len(log) - 1
 
 
 def _after(i, res):
     if i >= 0:
-        STATE["log"][i]["r"] = res
+        current_log()[i]["r"] = res
 
 
 def _wrap_simple(op, fn, creates=False):
@@ -382,14 +400,14 @@ def finished():
     """interleave mode: tell the scheduler this participant is done."""
     st = STATE
     if st["mode"] == "interleave":
-        st["busy"] = True
-        os.write(st["wfd"], (json.dumps({"ev": "done"}) + "\n").encode())
+        TL.busy = True
+        os.write(getattr(TL, "wfd", st["wfd"]), (json.dumps({"ev": "done"}) + "\n").encode())
 
 
 def pause():
-    """Disable interception (harness-side inspection of the directory)."""
-    STATE["busy"] = True
+    """Disable interception in this thread (harness-side inspection of the directory)."""
+    TL.busy = True
 
 
 def resume():
-    STATE["busy"] = False
+    TL.busy = False
